@@ -359,7 +359,7 @@ struct Run {
   void merge(int d, int sidx, int mode) {
     Slot& D = slots[d];
     Slot& S = slots[sidx];
-    if (D.total + S.total > WEIGHT_LIMIT) { capped++; return; }
+    if (D.total + S.total > unit_limit) { capped++; return; }
     std::unique_ptr<Sk> tmp;
     Sk* src = S.sk.get();
     const bool own = (d != sidx && mode != 2);
